@@ -130,7 +130,7 @@ def run(ctx):
                                             tlc=S.fl_nested(p["ys"])) if idx < 2 else None)
 
         # ---- (b) smooth non-polynomial SDE, one recorded BrownianInterval path ----------------------
-        for scale_up in (1, 3):
+        for scale_up in ((1, 3) if ctx.tier == "quick" else (1, 3, 6, 11)):
             d = p["d"] * scale_up
             m = d if p["nt"] == "diagonal" else (1 if p["nt"] == "scalar" else p["m"] * scale_up)
             B = 3
